@@ -1,11 +1,17 @@
 package c01
 
 import (
+	"context"
+	"crypto/tls"
 	"fmt"
+	"io"
+	"net"
+	"net/http"
 	"net/url"
 	"sort"
 	"strings"
 	"testing"
+	"time"
 
 	"pgregory.net/rapid"
 
@@ -34,6 +40,7 @@ type Case struct {
 	Sites []Site `json:"sites"`
 	Perm  []int  `json:"perm"` // second declaration order
 	Reqs  []Req  `json:"reqs"`
+	H2    bool   `json:"h2,omitempty"` // sites are HTTPS (tls self_signed) and the client speaks HTTP/2
 }
 
 // ---------------------------------------------------------------------------
@@ -199,17 +206,94 @@ func route(sites []Site, req Req) decision {
 
 // ---------------------------------------------------------------------------
 
-func siteAddr(s Site, port string) string {
+func siteAddr(s Site, port string, h2 bool) string {
+	if h2 {
+		return "https://" + s.Host + ":" + port + s.Path
+	}
 	return "http://" + s.Host + ":" + port + s.Path
 }
 
-func casketfile(sites []Site, order []int, port string) string {
+func casketfile(sites []Site, order []int, port string, h2 bool) string {
 	var sb strings.Builder
 	for _, i := range order {
 		s := sites[i]
-		fmt.Fprintf(&sb, "%s {\n\theader / X-Site s%d\n\theader / X-Seen \"{rewrite_path}\"\n\tstatus 204 /\n}\n", siteAddr(s, port), i)
+		tls := ""
+		if h2 {
+			tls = "\ttls self_signed\n"
+		}
+		fmt.Fprintf(&sb, "%s {\n%s\theader / X-Site s%d\n\theader / X-Seen \"{rewrite_path}\"\n\tstatus 204 /\n}\n", siteAddr(s, port, h2), tls, i)
 	}
 	return sb.String()
+}
+
+// pickSNI returns a server name for which some site has a certificate, so
+// that the handshake succeeds (which certificate is presented is C06's
+// subject; routing must follow the request's authority, not the SNI).
+func pickSNI(sites []Site) (string, bool) {
+	for _, s := range sites {
+		h := strings.ToLower(s.Host)
+		if h == "" || isCatchAll(h) || isIPv6Literal(h) || strings.HasPrefix(h, "[") || (h[0] >= '0' && h[0] <= '9') {
+			continue
+		}
+		return strings.ReplaceAll(h, "*", "a"), true
+	}
+	return "", false
+}
+
+// runOrderH2 is runOrder over TLS with an HTTP/2 client; the SNI is a fixed
+// name (certificate choice is C06's subject), the :authority is the case's Host.
+func runOrderH2(c *Case, order []int) ([]obs, error) {
+	inst, err := srv.Start(casketfile(c.Sites, order, "0", true), "")
+	if err != nil {
+		srv.Stop(inst)
+		return nil, fmt.Errorf("START: %v", err)
+	}
+	defer srv.Stop(inst)
+	// besides the TLS listener casket synthesises a plaintext redirect listener on :80
+	var addr string
+	for _, a := range srv.Addrs(inst) {
+		if srv.PortOf(a) != "80" {
+			if addr != "" {
+				return nil, fmt.Errorf("HARNESS: more than one non-redirect listener: %v", srv.Addrs(inst))
+			}
+			addr = srv.Loopback(a)
+		}
+	}
+	if addr == "" {
+		return nil, fmt.Errorf("HARNESS: no TLS listener among %v", srv.Addrs(inst))
+	}
+	sni, ok := pickSNI(c.Sites)
+	if !ok {
+		return nil, fmt.Errorf("SKIP-NO-SNI")
+	}
+	tr := &http.Transport{
+		TLSClientConfig:   &tls.Config{InsecureSkipVerify: true, ServerName: sni, NextProtos: []string{"h2"}},
+		ForceAttemptHTTP2: true,
+		DialContext: func(ctx context.Context, network, _ string) (net.Conn, error) {
+			return (&net.Dialer{Timeout: 5 * time.Second}).DialContext(ctx, network, addr)
+		},
+	}
+	defer tr.CloseIdleConnections()
+	cl := &http.Client{Transport: tr, Timeout: 20 * time.Second, CheckRedirect: func(*http.Request, []*http.Request) error { return http.ErrUseLastResponse }}
+	var out []obs
+	for _, r := range c.Reqs {
+		req, err := http.NewRequest("GET", "https://placeholder.invalid"+r.Path, nil)
+		if err != nil {
+			return nil, fmt.Errorf("HARNESS: %v", err)
+		}
+		req.Host = r.Host
+		resp, err := cl.Do(req)
+		if err != nil {
+			return nil, fmt.Errorf("HARNESS: h2 request %+v: %v", r, err)
+		}
+		b, _ := io.ReadAll(resp.Body)
+		resp.Body.Close()
+		if resp.ProtoMajor != 2 {
+			return nil, fmt.Errorf("HARNESS: response over %s, wanted HTTP/2", resp.Proto)
+		}
+		out = append(out, obs{Status: resp.StatusCode, Site: resp.Header.Get("X-Site"), Seen: resp.Header.Get("X-Seen"), Body: string(b)})
+	}
+	return out, nil
 }
 
 type obs struct {
@@ -220,17 +304,28 @@ type obs struct {
 }
 
 func runOrder(c *Case, order []int) ([]obs, error) {
-	inst, err := srv.Start(casketfile(c.Sites, order, "0"), "")
+	if c.H2 {
+		return runOrderH2(c, order)
+	}
+	inst, err := srv.Start(casketfile(c.Sites, order, "0", false), "")
 	if err != nil {
 		srv.Stop(inst)
 		return nil, fmt.Errorf("START: %v", err)
 	}
 	defer srv.Stop(inst)
-	addrs := srv.Addrs(inst)
-	if len(addrs) != 1 {
-		return nil, fmt.Errorf("HARNESS: %d listeners for one port", len(addrs))
+	// besides the TLS listener casket synthesises a plaintext redirect listener on :80
+	var addr string
+	for _, a := range srv.Addrs(inst) {
+		if srv.PortOf(a) != "80" {
+			if addr != "" {
+				return nil, fmt.Errorf("HARNESS: more than one non-redirect listener: %v", srv.Addrs(inst))
+			}
+			addr = srv.Loopback(a)
+		}
 	}
-	addr := srv.Loopback(addrs[0])
+	if addr == "" {
+		return nil, fmt.Errorf("HARNESS: no TLS listener among %v", srv.Addrs(inst))
+	}
 	conn, err := srv.Dial(addr)
 	if err != nil {
 		return nil, fmt.Errorf("HARNESS: dial: %v", err)
@@ -293,8 +388,12 @@ func runCase(c *Case) (nontrivialReqs int, err error) {
 			continue
 		}
 		if d.site < 0 {
-			if a.Status != 404 || a.Site != "" || !strings.Contains(a.Body, "is not served on this interface") {
-				return nontrivialReqs, fmt.Errorf("request %+v matches no site (host match: %s) and must get the 404 site-not-found response with no site handler run; got %+v", r, d.hostKind, a)
+			notFound := 404
+			if c.H2 {
+				notFound = 421
+			}
+			if a.Status != notFound || a.Site != "" || !strings.Contains(a.Body, "is not served on this interface") {
+				return nontrivialReqs, fmt.Errorf("request %+v matches no site (host match: %s) and must get the %d site-not-found response with no site handler run; got %+v", r, d.hostKind, notFound, a)
 			}
 			continue
 		}
@@ -482,6 +581,42 @@ func classify(c *Case) []string {
 	return cl
 }
 
+// TestH2 is the routing property over HTTP/2 (the statement's 421 clause).
+func TestH2(t *testing.T) {
+	if vt.ReplayPath() != "" {
+		t.Skip("replay mode")
+	}
+	rapid.Check(t, func(t *rapid.T) {
+		c := genCase(t)
+		c.H2 = true
+		// an HTTP/2 client re-encodes the target: keep the targets it sends verbatim
+		var rs []Req
+		for _, r := range c.Reqs {
+			if !strings.Contains(r.Path, "%") && !strings.Contains(r.Path, "//") && !strings.Contains(r.Path, "..") && isASCII(r.Path) {
+				rs = append(rs, r)
+			}
+		}
+		c.Reqs = rs
+		if len(c.Reqs) == 0 {
+			vt.Skip("h2", "no-plain-target")
+			return
+		}
+		nt, err := runCase(c)
+		if err != nil && strings.HasPrefix(err.Error(), "SKIP-REJECTED") {
+			vt.Skip("h2", "site-set-rejected-by-casket")
+			return
+		}
+		if err != nil && strings.Contains(err.Error(), "SKIP-NO-SNI") {
+			vt.Skip("h2", "no-site-with-a-dns-name")
+			return
+		}
+		vt.Record("h2", c, nt > 0, classify(c)...)
+		vt.Extra("h2", "requests", len(c.Reqs))
+		vt.Extra("h2", "nontrivial_requests", nt)
+		vt.Check(t, "h2", c, err)
+	})
+}
+
 func TestRouting(t *testing.T) {
 	if vt.ReplayPath() != "" {
 		t.Skip("replay mode")
@@ -506,7 +641,7 @@ func replayCase(rf *vt.ReplayFile) error {
 		return err
 	}
 	_, err := runCase(&c)
-	if err != nil && strings.HasPrefix(err.Error(), "SKIP-REJECTED") {
+	if err != nil && (strings.HasPrefix(err.Error(), "SKIP-REJECTED") || strings.Contains(err.Error(), "SKIP-NO-SNI")) {
 		return nil
 	}
 	return err
